@@ -931,6 +931,12 @@ class Interp:
             if itv[0] == "gen" and self._should_inline_gen(itv, node):
                 raise Undecided(f"for-loop over an inlined generator is not supported at {self.where(node)}")
 
+            if itv[0] in ("tuple", "list") and len(itv[1]) <= 8 and not any(x[0] == "star" for x in itv[1]) and isinstance(node, ast.For):
+                # a loop over a literal table (or a module-level literal tuple) runs exactly once per entry, in order
+                o = self._unrolled_for(node, list(itv[1]), s0)
+                res.next.extend(o.next)
+                res.absorb_abrupt(o)
+                continue
             nonempty = self._known_nonempty(itv, s0)
 
             def step(h: State, out: Outcome, itv=itv, s0=s0, nonempty=nonempty):
@@ -949,6 +955,31 @@ class Interp:
         return res
 
     s_AsyncFor = s_For
+
+    def _unrolled_for(self, node: ast.For, elems: List[Value], s0: State) -> Outcome:
+        out = Outcome()
+        cur = [s0]
+        for el in elems:
+            nxt: List[State] = []
+            for s in cur:
+                for s1 in self.assign(node.target, el, s, out, node):
+                    o = self.exec_block(node.body, [s1])
+                    nxt.extend(o.next)
+                    nxt.extend(o.cont)
+                    out.next.extend(o.brk)  # break leaves the loop and skips its else clause
+                    out.ret.extend(o.ret)
+                    out.exc.extend(o.exc)
+            cur = dedup(nxt)
+            if not cur:
+                break
+        if node.orelse and cur:
+            o = self.exec_block(node.orelse, cur)
+            out.next.extend(o.next)
+            out.absorb_abrupt(o)
+        else:
+            out.next.extend(cur)
+        out.next = dedup(out.next)
+        return out
 
     def _known_nonempty(self, itv: Value, st: State) -> bool:
         v = itv
@@ -1616,6 +1647,15 @@ class Interp:
             return self.call(cv[1], tuple(cv[2]) + tuple(args), tuple(cv[3]) + tuple(kwargs), node, st, out, None)
         elif cv == ("ext", "functools.partial") and args and not any(a[0] == "star" for a in args) and not any(k == "**" for k, _ in kwargs):
             return [(("partial", args[0], tuple(args[1:]), tuple(kwargs)), st)]
+        elif cv[0] == "attr" and cv[2] == "update" and len(args) == 1 and not kwargs and args[0][0] == "dict" and args[0][1] \
+                and all(k_ is not None and k_[0] == "const" for k_, _v in args[0][1]):
+            # m.update({"k": v, ...}) stores every item like m["k"] = v does (MutableMapping.update goes through __setitem__)
+            st_ = st
+            for k_, v_ in args[0][1]:
+                key = ("sub", cv[1], k_)
+                st_ = self.client.on_store(self, key, v_, node, st_)
+                st_ = st_.set(("H", key), v_)
+            return [(NONE, st_)]
         elif cv == ("ext", "operator.setitem") and len(args) == 3 and not kwargs:
             key = ("sub", args[0], args[1])
             st_ = self.client.on_store(self, key, args[2], node, st)
